@@ -47,9 +47,9 @@ theorem tokA (S : Suite) (hEL : S.EncLen) (hDE : S.DecEnc) (hPL : S.PubLen) (hPT
       · intro r rest hr hp
         rw [hrd r rest hr hp]; simp
   | s =>
-    obtain ⟨ev, evr, hwr, hrd⟩ := s_write_read S hEL hDE hPL A B hsymWR (hs_on rfl) okW.sPub okW.inv hn w hw cap hcap
+    obtain ⟨ev, evr, hwr, hrd⟩ := s_write_read S hEL hDE hPL A B hsymWR (hs_on rfl) (okW.sPub (hs_on rfl)) okW.inv hn w hw cap hcap
     have hfl := fieldBytes_length S hEL A.sym A.s.val.pub
-    have hl : A.s.val.pub.length = S.pubLen := by rw [okW.sPub]; exact hPL _
+    have hl : A.s.val.pub.length = S.pubLen := by rw [okW.sPub (hs_on rfl)]; exact hPL _
     have hf := symAfterField_facts S A.sym A.s.val.pub okW.inv hn
     simp only [Spec.Keys.step] at hk
     split at hk
@@ -59,7 +59,7 @@ theorem tokA (S : Suite) (hEL : S.EncLen) (hDE : S.DecEnc) (hPL : S.PubLen) (hPT
       · simp at hk
       · simp at hk; subst hk
         refine ⟨fieldBytes S A.sym A.s.val.pub, _, { B with sym := symAfterField S A.sym A.s.val.pub, rs := { val := A.s.val.pub, on := true } }, evr, hwr, rfl, by rw [hfl, hl]; split <;> omega, hf.2.2.1, ?_, hrd⟩
-        exact ⟨h.ia, h.ib, rfl, h.isPsk, h.psks, h.iE, fun _ => ⟨hs_on rfl, rfl, rfl, okW.sPub⟩, h.rE, h.rS, fun x => absurd x (by simp), h.nrS⟩
+        exact ⟨h.ia, h.ib, rfl, h.isPsk, h.psks, h.iE, fun _ => ⟨hs_on rfl, rfl, rfl, okW.sPub (hs_on rfl)⟩, h.rE, h.rS, fun x => absurd x (by simp), h.nrS⟩
   | psk n =>
     obtain ⟨hn10, key, hkey⟩ := hpsk n rfl
     obtain ⟨ha, hb, hsync⟩ := psk_sync S h n key hn10 hkey
@@ -153,9 +153,9 @@ theorem tokB (S : Suite) (hEL : S.EncLen) (hDE : S.DecEnc) (hPL : S.PubLen) (hPT
       · intro r rest hr hp
         rw [hrd r rest hr hp]; simp
   | s =>
-    obtain ⟨ev, evr, hwr, hrd⟩ := s_write_read S hEL hDE hPL B A hsymWR (hs_on rfl) okW.sPub okW.inv hn w hw cap hcap
+    obtain ⟨ev, evr, hwr, hrd⟩ := s_write_read S hEL hDE hPL B A hsymWR (hs_on rfl) (okW.sPub (hs_on rfl)) okW.inv hn w hw cap hcap
     have hfl := fieldBytes_length S hEL B.sym B.s.val.pub
-    have hl : B.s.val.pub.length = S.pubLen := by rw [okW.sPub]; exact hPL _
+    have hl : B.s.val.pub.length = S.pubLen := by rw [okW.sPub (hs_on rfl)]; exact hPL _
     have hf := symAfterField_facts S B.sym B.s.val.pub okW.inv hn
     simp only [Spec.Keys.step] at hk
     split at hk
@@ -165,7 +165,7 @@ theorem tokB (S : Suite) (hEL : S.EncLen) (hDE : S.DecEnc) (hPL : S.PubLen) (hPT
       · simp at hk
       · simp at hk; subst hk
         refine ⟨fieldBytes S B.sym B.s.val.pub, _, { A with sym := symAfterField S B.sym B.s.val.pub, rs := { val := B.s.val.pub, on := true } }, evr, hwr, rfl, by rw [hfl, hl]; split <;> omega, hf.2.2.1, ?_, hrd⟩
-        exact ⟨h.ia, h.ib, rfl, h.isPsk, h.psks, h.iE, h.iS, h.rE, fun _ => ⟨hs_on rfl, rfl, rfl, okW.sPub⟩, h.niS, fun x => absurd x (by simp)⟩
+        exact ⟨h.ia, h.ib, rfl, h.isPsk, h.psks, h.iE, h.iS, h.rE, fun _ => ⟨hs_on rfl, rfl, rfl, okW.sPub (hs_on rfl)⟩, h.niS, fun x => absurd x (by simp)⟩
   | psk n =>
     obtain ⟨hn10, key, hkey⟩ := hpsk n rfl
     obtain ⟨ha, hb, hsync⟩ := psk_sync S h n key hn10 hkey
